@@ -11,7 +11,14 @@ up to 5 consecutive runs of the REAL ``install_requirements`` (run 0 = integrati
 removals, index releases, edits of the requirement files and ``allow_all_imports`` toggles.  Inline comments are
 free text (also with ``, < > ~ !``).  The host may install exactly the version that is pinned.  The installer may
 fail (for everything = no network, or for some packages = no such version) from the start or from some point of
-the history on and recover later; the history goes on after a run that failed for that reason.
+the history on and recover later; the history goes on after a run that failed for that reason.  The integration
+is configured through configuration.yaml (config entry with source "import") or, in about a third of the
+scenarios, through the UI (source "user"; yaml may then still carry free-form keys and - ignored - the three
+settings).  Between runs the configuration changes through the entry point that belongs to it: the REAL options
+dialog (``PyscriptOptionsConfigFlow``: ``allow_all_imports``, ``hass_is_global``, ``legacy_decorators`` flipped, or
+the dialog confirmed without a change; for a yaml entry the dialog only says that there is no UI configuration),
+the three settings in yaml, and a free-form yaml key that comes and goes (both re-read by the REAL import flow at
+the next reload / restart).  All of these rewrite the data of the config entry that also holds the record.
 
 Seams owned by the simulator (``unittest.mock.patch`` on the names as imported in
 ``custom_components.pyscript.requirements``): ``glob`` (seeded permutation of every directory listing, new
@@ -23,7 +30,9 @@ passive probes (``process_all_requirements`` result, begin/end of ``install_requ
 Oracle: a reference resolver written from the property text and docs/reference.rst (highest ``==`` pin by
 packaging.version, unpinned only without a pin, comments / blank / unsupported specifiers ignored) and the
 stated installer rules; the record is compared with what the simulated installer really did after every run,
-whether installations failed or not and whether the run raised or not.  Order independence is checked twice: (1) the whole history is executed in two
+whether installations failed or not and whether the run raised or not; the record is also looked at after every
+options dialog, at the start of every run (after the configuration was re-read) and at the end of the history: it
+may only change inside a run of ``install_requirements`` (nothing is installed outside one).  Order independence is checked twice: (1) the whole history is executed in two
 worlds that differ only in which file holds which content, the order of lines within the files and the
 listing permutations - resolved table, installer calls and record must be identical after every run;
 (2) in world A the real ``process_all_requirements`` is swept over all (small sets) or a seeded sample of
@@ -60,7 +69,11 @@ RULE = (
     "allow_all_imports; history of <=4 further runs via reload / unload+setup / direct call with external "
     "installs (host versions or the very version that is pinned), removals, index releases, file edits, allow "
     "toggles; in 3 of 10 scenarios the installer fails from the start or from some point on - for every package "
-    "or, in half of those, for a subset - and recovers again); every scenario is executed in two worlds "
+    "or, in half of those, for a subset - and recovers again; in 32 % of the scenarios the config entry is a UI "
+    "entry (source user, with or without the three settings also in yaml) and allow_all_imports / hass_is_global "
+    "/ legacy_decorators are changed through the real options dialog, else through yaml + import flow; a "
+    "free-form yaml key is added / changed / removed; the options dialog is opened and confirmed unchanged); "
+    "every scenario is executed in two worlds "
     "with different file/line/listing orders and, in world A, the resolver is swept over all (<=24/48) or a sample "
     "of orderings of the same multiset; distinct = scenario digest; non-trivial = an allowed run with >=1 "
     "resolved package and (>=2 files or a package with >=2 competing supported entries)"
@@ -109,7 +122,17 @@ ASSUMPTIONS = [
     "unsupported specifiers are >=, <=, >, <, ~=, != and comma lists (docs: only 'pkg' and 'pkg==version' are "
     "supported); the property says they are ignored",
     "allow_all_imports is taken from the config entry's data at the start of each run (yaml -> entry propagation is "
-    "not judged here)",
+    "not judged here); for an entry configured through the UI the setting is, in addition, the one chosen in the "
+    "UI / options dialog, whatever configuration.yaml says (docs: 'if you used the UI flow to configure pyscript, "
+    "the allow_all_imports, hass_is_global and legacy_decorators configuration settings will be ignored in the "
+    "yaml file'): an installation while that setting is off is reported",
+    "a UI entry exists before set-up with exactly the three settings (plus the record of an earlier session); the "
+    "options dialog is driven as a user does: every field is submitted as the dialog shows it except the one "
+    "that is flipped; a change in the options dialog is in the entry at once and used by the next run of any kind",
+    "outside a run of install_requirements pyscript installs nothing, so a record that matched what pyscript "
+    "installed must be unchanged by an options dialog, a yaml import or anything else between two runs; only "
+    "entries for packages pyscript owns (record == installed version) and versions that appear from nowhere are "
+    "judged, stale entries stay don't-care",
     "moving the whole content of one requirements.txt to the place of another is a change of file order "
     "(the visit order of roots '', apps/*, modules/*, scripts/* is fixed in the code, the listing order inside a "
     "root is permuted at the glob seam)",
@@ -132,6 +155,9 @@ REACH_PROBES = [
     "installer_failed", "installer_failed_partially", "install_failed_for_missing_pin",
     "install_failed_for_missing_unpinned", "install_failed_for_own_update", "run_raised_on_failed_install",
     "run_after_failed_install", "restart_after_failed_setup", "host_installs_pinned_version",
+    "ui_configured_entry", "ui_entry_with_settings_in_yaml", "options_dialog_changed_setting",
+    "options_dialog_without_change", "option_changed_with_nonempty_record", "options_dialog_refused_for_yaml_entry",
+    "other_setting_changed", "yaml_extra_key_changed", "run_after_config_change",
 ]
 SHRINK_LISTS = [["ops"], ["spec", "files"], ["spec", "files", "*", "lines"]]
 
@@ -149,6 +175,10 @@ COMMENT_NOTES = [  # inline comment texts with characters that mean something in
     "was PKG<9.9", "PKG!=9.9 is broken", "a, b and c need it", "-> see README", "PKG~=9.9 would do as well",
 ]
 PIP_MODES = ("ok", "offline", "pkgs")
+CONF_BOOLS = (CONF_ALLOW, "hass_is_global", "legacy_decorators")  # the three settings of the options dialog
+CFG_KEY = {CONF_ALLOW: CONF_ALLOW, "hass_is_global": "hass_is_global", "legacy_decorators": "legacy"}
+CONFIG_WHATS = ("hass_is_global", "legacy_decorators", "extra", "dialog")
+EXTRA_KEY = "c20_note"  # a free-form yaml setting (docs: additional user-defined yaml configuration settings)
 PATH_POOL = [
     "pyscript/requirements.txt",
     "pyscript/apps/app1/requirements.txt",
@@ -394,6 +424,15 @@ def gen(rng: random.Random, tier: str) -> dict:
     pip_faults = rng.random() < 0.30
     pip_partial = rng.random() < 0.5
     pip0 = _gen_pip(rng, pkgs, pip_partial) if pip_faults and rng.random() < 0.6 else {"mode": "ok"}
+    # how pyscript is configured: through configuration.yaml (config entry with source "import") or through the UI
+    # (source "user": the three settings live in the config entry only and are changed in the options dialog;
+    # yaml may still carry free-form settings and - ignored, says the documentation - the three settings)
+    ui = rng.random() < 0.32
+    yaml_bools = None
+    if ui and rng.random() < 0.4:
+        yaml_bools = {name: rng.random() < 0.5 for name in CONF_BOOLS}
+    cfg["hass_is_global"] = rng.random() < 0.3
+    p_config = 0.24 if ui else 0.10
     ops: list[dict] = []
     for _ in range(rng.choice([0, 1, 2, 2, 3, 4])):
         for _ in range(rng.choice([0, 1, 1, 2, 3])):
@@ -401,6 +440,14 @@ def gen(rng: random.Random, tier: str) -> dict:
             if pip_faults and rng.random() < 0.3:
                 op.update({"kind": "pip"})
                 op.update(_gen_pip(rng, pkgs, pip_partial))
+                ops.append(op)
+                continue
+            if rng.random() < p_config:
+                # a change of the configuration between two runs: one of the other settings (options dialog for a
+                # UI entry, yaml for a yaml entry), a free-form yaml key, or the options dialog opened and confirmed
+                what = rng.choice(["hass_is_global", "hass_is_global", "legacy_decorators", "extra", "dialog"])
+                op.update({"kind": "config", "what": what,
+                           "v": rng.randrange(3) if what == "extra" else int(rng.random() < 0.6)})
                 ops.append(op)
                 continue
             roll = rng.random()
@@ -445,7 +492,7 @@ def gen(rng: random.Random, tier: str) -> dict:
         "record_key_present": rng.random() < 0.5, "eol": rng.random() < 0.8, "exotic": exotic,
         "listing_seed": rng.randrange(1 << 30), "sweep_seed": rng.randrange(1 << 30),
         "order_b": {"seed": rng.randrange(1 << 30), "listing_seed": rng.randrange(1 << 30)},
-        "pip0": pip0,
+        "pip0": pip0, "entry_source": "user" if ui else "import", "yaml_bools": yaml_bools,
     }
     return {"cfg": cfg, "spec": spec, "ops": ops}
 
@@ -558,10 +605,23 @@ def simplify(scn: dict):
         cand = copy.deepcopy(scn)
         cand["spec"]["pip0"] = {"mode": "ok"}
         yield cand
+    if spec.get("entry_source", "import") != "import":
+        cand = copy.deepcopy(scn)
+        cand["spec"]["entry_source"] = "import"
+        cand["spec"]["yaml_bools"] = None
+        yield cand
+    if spec.get("yaml_bools"):
+        cand = copy.deepcopy(scn)
+        cand["spec"]["yaml_bools"] = None
+        yield cand
     for oi, op in enumerate(scn["ops"]):
         if op["kind"] == "ext_install" and op.get("pin"):
             cand = copy.deepcopy(scn)
             cand["ops"][oi]["pin"] = False
+            yield cand
+        if op["kind"] == "config" and op.get("what") != "dialog":
+            cand = copy.deepcopy(scn)
+            cand["ops"][oi]["what"] = "dialog"
             yield cand
         if op["kind"] == "pip" and op.get("mode") == "pkgs" and len(op.get("pkgs") or []) > 1:
             for pi in range(len(op["pkgs"])):
@@ -581,7 +641,8 @@ def simplify(scn: dict):
             cand = copy.deepcopy(scn)
             cand["ops"][oi]["dt"] = 0.25
             yield cand
-    for key, val in (("exec_latency_ms", [0.0, 0.0]), ("cost_us", 50), ("fire_started", True)):
+    for key, val in (("exec_latency_ms", [0.0, 0.0]), ("cost_us", 50), ("fire_started", True),
+                     ("hass_is_global", False)):
         if scn["cfg"].get(key) != val:
             cand = copy.deepcopy(scn)
             cand["cfg"][key] = val
@@ -641,6 +702,11 @@ class PkgSim:
         self.sweeps = 0
         self.sweep_orderings = 0
         self.pip: dict = dict(spec.get("pip0") or {"mode": "ok"})  # state of the installer (injected fault)
+        self.ui = spec.get("entry_source", "import") == "user"  # configured through the UI (options dialog)
+        # the record as the last run (or the earlier session) left it: it may only change inside a run
+        self.record_last: dict[str, str] = dict(spec["record"]) if spec["prior_entry"] else {}
+        self.drifts: list[dict] = []
+        self.config_changes = 0  # configuration changes since the last run (reach probe)
 
     # ------------------------------------------------------------ seams
     def installed_version(self, name):
@@ -739,11 +805,18 @@ class PkgSim:
         w = self.world
         self.listing_epoch += 1
         self.visited = []
+        # a reload / restart re-reads the configuration before it gets here (yaml import flow)
+        self.note_record(entry, "config_reread")
+        if self.config_changes:
+            w.probe("run_after_config_change")
+            self.config_changes = 0
         rec = {
             "k": len(self.runs),
             "t": w.vts(),
             "how": self.next_how,
             "allow": bool(entry.data.get(CONF_ALLOW, False)),
+            # UI entry: the setting is what the user chose in the UI, whatever yaml says
+            "allow_expected": bool(w.cfg[CONF_ALLOW]) if self.ui else None,
             "table_before": {p: list(v) for p, v in sorted(self.table.items())},
             "record_before": dict(entry.data.get(CONF_INSTALLED, {})),
             "record_key_before": CONF_INSTALLED in entry.data,
@@ -769,6 +842,7 @@ class PkgSim:
         rec["table_after"] = {p: list(v) for p, v in sorted(self.table.items())}
         rec["visited"] = list(self.visited)
         rec["t_end"] = self.world.vts()
+        self.record_last = dict(rec["record_after"])
         self.cur = None
         self.runs.append(rec)
         flat = sorted(r for call in rec["calls"] for r in call)
@@ -776,6 +850,19 @@ class PkgSim:
                                  sorted(rec["record_after"].items()), rec["exc"], rec["visited"]])
         if rec["pip_failed"]:
             self.world.trace.append(["c20pipfail", rec["k"], sorted(rec["pip_failed"]), sorted(rec["installed"])])
+
+    def note_record(self, entry, via: str) -> None:
+        """Outside a run nothing is installed, so the record must stay as the last run left it."""
+        cur = dict(entry.data.get(CONF_INSTALLED, {}))
+        if cur == self.record_last:
+            return
+        self.drifts.append({"t": self.world.vts(), "via": via, "before_run": len(self.runs),
+                            "old": dict(self.record_last), "new": cur,
+                            "table": {p: list(v) for p, v in sorted(self.table.items())},
+                            "last_py": dict(self.last_py)})
+        self.world.trace.append(["c20drift", self.world.vts(), via, sorted(self.record_last.items()),
+                                 sorted(cur.items())])
+        self.record_last = cur
 
     # ------------------------------------------------------------ disk
     def materialise(self, files: dict[str, list[str]] | None = None) -> None:
@@ -810,19 +897,78 @@ class ReqWorld(World):
                   sim.wrap_process(reqmod.process_all_requirements)),
             patch("custom_components.pyscript.install_requirements", sim.wrap_install(reqmod.install_requirements)),
         ]
-        if spec["prior_entry"]:
+        if spec["prior_entry"] or sim.ui:
             from pytest_homeassistant_custom_component.common import MockConfigEntry
 
-            data = dict(self.pyscript_conf())
-            if spec["record"] or spec.get("record_key_present"):
+            # a UI entry always exists before set-up (the user created it in the UI: its data are the three
+            # settings); a yaml entry exists if an earlier session imported it
+            data = {name: bool(self.cfg[CFG_KEY[name]]) for name in CONF_BOOLS} if sim.ui \
+                else dict(self.pyscript_conf())
+            if spec["prior_entry"] and (spec["record"] or spec.get("record_key_present")):
                 data[CONF_INSTALLED] = dict(sorted(spec["record"].items()))
-            entry = MockConfigEntry(domain="pyscript", data=data, source="import", unique_id="pyscript",
-                                    title="pyscript")
+            entry = MockConfigEntry(domain="pyscript", data=data, source="user" if sim.ui else "import",
+                                    unique_id="pyscript", title="pyscript")
             entry.add_to_hass(self.hass)
-            self.probe("prior_record_seeded" if spec["record"] else "prior_entry_without_record")
-            if any(spec["table"].get(p, [None, None]) != [v, "pyscript"] for p, v in spec["record"].items()):
-                self.probe("stale_record_seeded")
+            if sim.ui:
+                self.probe("ui_configured_entry")
+                if spec.get("yaml_bools"):
+                    self.probe("ui_entry_with_settings_in_yaml")
+            if spec["prior_entry"]:
+                self.probe("prior_record_seeded" if spec["record"] else "prior_entry_without_record")
+                if any(spec["table"].get(p, [None, None]) != [v, "pyscript"] for p, v in spec["record"].items()):
+                    self.probe("stale_record_seeded")
         return hooks
+
+    def pyscript_conf(self) -> dict:
+        """The ``pyscript:`` section of configuration.yaml.  With a UI entry the three settings are not taken
+        from yaml (they may be there all the same: docs 'will be ignored'); free-form keys still are."""
+        if not self.sim.ui:
+            return super().pyscript_conf()
+        conf = dict(self.sim.scn["spec"].get("yaml_bools") or {})
+        conf.update(self.cfg.get("extra_conf") or {})
+        return conf
+
+    async def options_dialog(self, changes: dict) -> str:
+        """The user opens the integration's options dialog ('configure'), flips the settings in ``changes`` and
+        submits; every other field is submitted as the dialog shows it.  Returns what the dialog did."""
+        from homeassistant.data_entry_flow import FlowResultType
+
+        sim = self.sim
+        mgr = self.hass.config_entries.options
+        before = dict(self.entry.data)
+        res = await mgr.async_init(self.entry.entry_id)
+        if res["type"] != FlowResultType.FORM:
+            raise HarnessError(f"options dialog did not open: {res['type']}")
+        if res["step_id"] == "no_ui_configuration_allowed":
+            if sim.ui:
+                raise HarnessError("options dialog refused for a UI entry")
+            res = await mgr.async_configure(res["flow_id"], user_input={})
+            outcome = "no_ui"
+            self.probe("options_dialog_refused_for_yaml_entry")
+        elif res["step_id"] == "init":
+            if not sim.ui:
+                raise HarnessError("options dialog offered for a yaml entry")
+            shown = {str(key): key.default() for key in res["data_schema"].schema}
+            if sorted(shown) != sorted(CONF_BOOLS):
+                raise HarnessError(f"options dialog shows {sorted(shown)}")
+            form = {**shown, **{k: bool(v) for k, v in changes.items()}}
+            res = await mgr.async_configure(res["flow_id"], user_input=form)
+            if res["type"] == FlowResultType.FORM and res["step_id"] == "no_update":
+                res = await mgr.async_configure(res["flow_id"], user_input={})
+                outcome = "no_update"
+                self.probe("options_dialog_without_change")
+            else:
+                outcome = "updated"
+                self.probe("options_dialog_changed_setting")
+                if before.get(CONF_INSTALLED):
+                    self.probe("option_changed_with_nonempty_record")
+        else:
+            raise HarnessError(f"options dialog opened at step {res['step_id']}")
+        if res["type"] != FlowResultType.CREATE_ENTRY:
+            raise HarnessError(f"options dialog ended with {res['type']}")
+        await self.drain()
+        sim.note_record(self.entry, "options_dialog")
+        return outcome
 
     def digest(self) -> str:
         """Trace digest without the per-process config directory (its name contains the pid).
@@ -998,8 +1144,35 @@ def run_world(scn: dict, order: dict | None, tier_conf: dict):
             elif kind == "allow":
                 if w.cfg[CONF_ALLOW] != op["v"]:
                     w.probe("allow_toggled")
+                    sim.config_changes += 1
+                outcome = "yaml"
+                if sim.ui:  # the setting of a UI entry is changed in the options dialog (takes effect at once)
+                    outcome = await w.options_dialog({CONF_ALLOW: op["v"]})
                 w.cfg[CONF_ALLOW] = op["v"]
-                w.trace.append(["op", "allow", w.vts(), op["v"]])
+                w.trace.append(["op", "allow", w.vts(), op["v"], outcome])
+            elif kind == "config":
+                what = op.get("what", "dialog")
+                outcome = "yaml"
+                if what in ("hass_is_global", "legacy_decorators"):
+                    val = bool(op.get("v"))
+                    if bool(w.cfg[CFG_KEY[what]]) != val:
+                        sim.config_changes += 1
+                        w.probe("other_setting_changed")
+                    if sim.ui:
+                        outcome = await w.options_dialog({what: val})
+                    w.cfg[CFG_KEY[what]] = val  # yaml entry: read again by the next reload / restart
+                elif what == "extra":
+                    new = {EXTRA_KEY: int(op["v"])} if op.get("v") else {}
+                    if new != (w.cfg.get("extra_conf") or {}):
+                        sim.config_changes += 1
+                        w.probe("yaml_extra_key_changed")
+                    w.cfg["extra_conf"] = new
+                elif what == "dialog":
+                    outcome = await w.options_dialog({})
+                else:
+                    raise HarnessError(f"unknown config op {what}")
+                w.fault("config_change")
+                w.trace.append(["op", "config", w.vts(), what, op.get("v"), outcome])
             elif kind == "write":
                 sim.model[op["path"]] = list(op["lines"])
                 sim.materialise()
@@ -1066,6 +1239,7 @@ def run_world(scn: dict, order: dict | None, tier_conf: dict):
         if dirty and order is None and not sim.dead:
             sweep(w, sim, tier_conf, sweep_viol)
         await w.settle(0.5)
+        sim.note_record(w.entry, "end_of_history")
 
     w.run(driver)
     return w, sim, sweep_viol
@@ -1169,6 +1343,11 @@ def judge_run(rec: dict, ref: dict, universe: list[str], tainted: set, probe, op
             out.append({"class": "C20.installed_when_not_allowed", "sig": {},
                         "detail": f"{where}: allow_all_imports is false but the installer was called with {flat}",
                         "t": t})
+    if rec.get("allow_expected") is False and rec["allow"] and flat:
+        # UI entry: the user's setting is off, yet the run found it on (docs: the yaml values are ignored then)
+        out.append({"class": "C20.installed_when_not_allowed", "sig": {"ui_setting": "not_in_effect"},
+                    "detail": f"{where}: allow_all_imports is off in the UI (the entry was configured there) but the "
+                              f"config entry says on and the installer was called with {flat}", "t": t})
     called: dict[str, str | None] = {}
     for req in flat:
         name, ver = _split_req(req)
@@ -1310,6 +1489,39 @@ def judge_run(rec: dict, ref: dict, universe: list[str], tainted: set, probe, op
     return out
 
 
+def judge_drift(ev: dict, universe: list[str], tainted: set, probe) -> list:
+    """The record changed while no run of install_requirements was in progress (options dialog, yaml import, ...).
+
+    Nothing is installed outside a run, so a record that matched what pyscript installed cannot match any more,
+    and a version that appears in it was not installed by pyscript.  Stale entries (package changed or removed
+    externally since) stay don't-care.
+    """
+    out = []
+    probe("record_changed_outside_a_run")
+    for name in sorted(set(ev["old"]) | set(ev["new"])):
+        if name in tainted or name not in universe:
+            continue
+        old, new = ev["old"].get(name), ev["new"].get(name)
+        if old == new:
+            continue
+        have = ev["table"].get(name)
+        how = "lost" if new is None else ("invented" if old is None else "changed")
+        owned = have is not None and have[1] == "pyscript" and same_version(old, have[0])
+        if owned and not same_version(new, have[0]):
+            why = f"pyscript installed {name!r} {have[0]} and the record said so"
+        elif new is not None and not same_version(new, old) and not same_version(new, ev["last_py"].get(name)):
+            why = f"pyscript last installed {name!r} {ev['last_py'].get(name)!r}"
+        else:
+            continue
+        out.append({"class": "C20.record_mismatch",
+                    "sig": {"kind": "changed_outside_a_run", "how": how, "via": ev["via"]},
+                    "detail": f"before run {ev['before_run']}: {why}; after {ev['via']} (no run of "
+                              f"install_requirements in between) the record is {ev['new']} (was {ev['old']}, "
+                              f"installed: {ev['table']})", "t": ev["t"]})
+        tainted.add(name)  # what later runs do with this package is a consequence
+    return out
+
+
 def judge_history(w: "ReqWorld", sim: PkgSim, scn: dict) -> tuple[list, dict]:
     universe = list(scn["spec"]["pkgs"])
     tainted: set = set()
@@ -1317,7 +1529,12 @@ def judge_history(w: "ReqWorld", sim: PkgSim, scn: dict) -> tuple[list, dict]:
     out = []
     stats = {"allowed_runs_with_reqs": 0, "competing": 0, "installer_reqs": 0, "multi_file": 0}
     prev_sel = None
-    for rec in sim.runs:
+    for rec in sim.runs + [None]:
+        for ev in sim.drifts:
+            if ev["before_run"] == (len(sim.runs) if rec is None else rec["k"]):
+                out.extend(judge_drift(ev, universe, tainted, w.probe))
+        if rec is None:
+            break
         ref = resolve(rec["lines"])
         sel = ref["sel"]
         out.extend(judge_run(rec, ref, universe, tainted, w.probe, open_ever))
